@@ -163,6 +163,17 @@ Theorem C14_concat_support_two : forall (V : Type) (x y : ts V), WF x -> WF y ->
 Proof. exact @all_in_union2. Qed.
 Print Assumptions C14_concat_support_two.
 
+(* ... and for ANY number of operands, under a hypothesis on the STARTS only: no timestamp lies in the closed microsecond
+   [p - 1 us, p] before a start p of an operand's support (the only place where the constructor behind IntervalSet.union
+   trims).  Not the exact statement either - a timestamp AT a start is excluded although it is kept - but it needs
+   nothing about ends and covers every operand list of the harness whose timestamps stay clear of the starts *)
+Theorem C14_concat_support_all : forall (V : Type) (x0 : ts V) (rest : list (ts V)),
+  Forall WF (x0 :: rest) ->
+  Forall (fun t => Forall (fun x => clear_of_starts t (sup_of x)) (x0 :: rest)) (concat (map t_of (x0 :: rest))) ->
+  all_in (concat (map t_of (x0 :: rest))) (fold_left iset_union (map sup_of rest) (sup_of x0)).
+Proof. exact @all_in_union_all. Qed.
+Print Assumptions C14_concat_support_all.
+
 (* 10. splitting along time (np.split / np.array_split / np.vsplit) at sorted indices, into N equal sections,
        or - np.array_split - into ANY number N > 0 of sections: every piece is a time series of x's class with
        x's support and labels, holding exactly the timestamps AND the rows of its positions; the pieces
@@ -206,6 +217,40 @@ Theorem C14_hsplit_1d_refuted :
     WF x /\ cells p1 ++ cells p2 = cells (dat x) /\ @split_other Z unit x [p1; p2] = [OArr p1; OArr p2].
 Proof. exact hsplit_1d_witness. Qed.
 Print Assumptions C14_hsplit_1d_refuted.
+
+(* the time axis spelled as a negative axis: _split_tsd tests `axis == 0` literally (axis 0 itself is split_tsd) *)
+Theorem C14_split_axis0_is_split : forall (V W : Type) (x : ts V) (b : bool) (ios : nat + list nat) (pcs : list (arr V)),
+  @split_tsd_axis V W x b ios 0 pcs = split_tsd x b ios.
+Proof. exact @split_axis0. Qed.
+Print Assumptions C14_split_axis0_is_split.
+
+Theorem C14_split_negative_axis_refuted :
+  exists (x : ts Z) (r1 r2 : ts Z),
+    WF x /\ ndim (dat x) = 1%nat
+    /\ @split_tsd Z unit x false (inl 2%nat) = inl [OTs r1; OTs r2] /\ t_of r1 ++ t_of r2 = t_of x
+    /\ @split_tsd_axis Z unit x false (inl 2%nat) (-1) [dat r1; dat r2] = inl [OArr (dat r1); OArr (dat r2)].
+Proof. exact split_negative_axis_witness. Qed.
+Print Assumptions C14_split_negative_axis_refuted.
+
+(* "carries x's timestamps": stacking along another axis two frames whose time axes differ by 1 ns returns a frame on the
+   first operand's timestamps *)
+Theorem C14_concat_time_equal_1ns_refuted :
+  exists (x y r : ts Z) (outp : arr Z),
+    WF x /\ WF y /\ sup_of y = sup_of x /\ t_of y <> t_of x /\ shape outp = [2; 4]%nat /\ wf_arr outp
+    /\ @concat_tsd Z unit [inl x; inl y] outp = OTs r /\ t_of r = t_of x /\ t_of r <> t_of y.
+Proof. exact concat_time_1ns_witness. Qed.
+Print Assumptions C14_concat_time_equal_1ns_refuted.
+
+(* "unions the supports" for three operands: the pairwise fold leaves a gap the union does not have *)
+Theorem C14_concat_fold_union_refuted :
+  exists (x y z r : ts Z) (t0 : Z),
+    WF x /\ WF y /\ WF z /\ strictly_incb (t_of x ++ t_of y ++ t_of z) = true
+    /\ (forall t, In t (t_of x ++ t_of y ++ t_of z) -> mem t (sup_of x) || mem t (sup_of y) || mem t (sup_of z) = true)
+    /\ (forall t, -1000 <= t <= 9000 -> mem t (sup_of x) || mem t (sup_of y) || mem t (sup_of z) = true)
+    /\ @concat_tsd Z unit [inl x; inl y; inl z] (cat0 [dat x; dat y; dat z]) = OTs r
+    /\ In t0 (t_of x) /\ ~ In t0 (t_of r) /\ mem t0 (sup_of r) = false.
+Proof. exact concat_fold_union_witness. Qed.
+Print Assumptions C14_concat_fold_union_refuted.
 
 Theorem C14_concat_empty_operand_refuted :
   exists x e : ts Z, WF x /\ WF e /\ strictly_incb (t_of x ++ t_of e) = true
